@@ -134,3 +134,78 @@ func H_C17_url() {
 	vCheckUnordered("C17 Url", err, r)
 	vReach("end")
 }
+
+// an either group and a botheq group with the same id in one object are two groups
+type vGSameID struct {
+	A string `valid:"either=1"`
+	B string `valid:"either=1"`
+	C string `valid:"botheq=1"`
+	D string `valid:"botheq=1"`
+}
+
+func H_C17_same_id_kinds() {
+	vRunGroups("C17 either=1 and botheq=1 side by side", &vGSameID{A: vStr("A"), B: vStr("B"), C: vStr("C"), D: vStr("D")}, true)
+}
+
+type vGLone struct {
+	A string `valid:"either=1"`
+	C string `valid:"botheq=1"`
+}
+
+func H_C17_lone_each_kind() {
+	vRunGroups("C17 one member of each kind with the same id", &vGLone{A: vStr("A"), C: vStr("C")}, true)
+}
+
+// members of array, slice, map and pointer kinds: empty means zero value
+type vGKinds struct {
+	A [2]int `valid:"either=a"`
+	B [2]int `valid:"either=a"`
+	S []int  `valid:"either=s"`
+	T []int  `valid:"either=s"`
+	P *int   `valid:"either=p"`
+	Q *int   `valid:"either=p"`
+	U uint16 `valid:"either=u,botheq=v"`
+	V uint16 `valid:"either=u,botheq=v"`
+}
+
+func H_C17_member_kinds() {
+	o := &vGKinds{A: [2]int{vndInt("A0"), 0}, B: [2]int{0, vndInt("B1")}, U: vndUint16("U"), V: vndUint16("V")}
+	if vndBool("S") {
+		o.S = []int{}
+	}
+	if vndBool("P") {
+		x := 0
+		o.P = &x
+	}
+	vRunGroups("C17 member kinds", o, true)
+}
+
+func H_C17_map_kinds() {
+	rm := NewRule().Set("a", "either=1,botheq=1").Set("b", "either=1,botheq=1")
+	switch vndChoice("kind", 3) {
+	case 0:
+		m := map[string]uint16{"a": vndUint16("a"), "b": vndUint16("b")}
+		vULog = nil
+		err := Map(m, rm)
+		r := vNewRef()
+		vRefMap(r, m, rm)
+		vCheckUnordered("C17 Map(map[string]uint16)", err, r)
+	case 1:
+		m := map[string]float64{"a": vndFloat64("a"), "b": vndFloat64("b")}
+		vAssume(vNot(vIsNaN(m["a"])))
+		vAssume(vNot(vIsNaN(m["b"])))
+		vULog = nil
+		err := Map(m, rm)
+		r := vNewRef()
+		vRefMap(r, m, rm)
+		vCheckUnordered("C17 Map(map[string]float64)", err, r)
+	case 2:
+		m := map[string]bool{"a": vndBool("a"), "b": vndBool("b")}
+		vULog = nil
+		err := Map(m, rm)
+		r := vNewRef()
+		vRefMap(r, m, rm)
+		vCheckUnordered("C17 Map(map[string]bool)", err, r)
+	}
+	vReach("end")
+}
